@@ -80,18 +80,19 @@ theorem WFrame2_leave {s : St} {i : Nat} {e : Entry} {w : WCtx} (hW : InvW s) (h
   have hen : s.mpc = .ending := (hW.ew e (mem_of_getElem? hi)).exitEn w hw hst
   exact ⟨Or.inr hen, Or.inr (Or.inl hen)⟩
 
-theorem wTop_frame2 {s s' : St} {i : Nat} (hW : InvW s) (hs : wTop s i = some s') : WFrame2 s s' := by
+theorem wTop_frame2 {P : Params} {s s' : St} {i o0 : Nat} (hW : InvW s) (hs : wTop P s i o0 = some s') : WFrame2 s s' := by
   unfold wTop at hs
   split at hs; · cases hs
   rename_i e hi
   split at hs; · cases hs
   rename_i w hw
   split at hs
-  · split at hs <;> cases hs
-    · exact WFrame2_setW hi _
-    · exact WFrame2_setW hi _
-    · rename_i hst; exact WFrame2_leave hW hi hw hst
-    · exact WFrame2_setW hi _
+  · split at hs
+    · cases hs; exact WFrame2_setW hi _
+    · cases hs; exact WFrame2_setW hi _
+    · rename_i hst; cases hs; exact WFrame2_leave hW hi hw hst
+    · split at hs <;> cases hs
+      exact WFrame2_setW hi _
   · cases hs
 
 theorem wEnc_frame2 {P : Params} {s s' : St} {i : Nat} {full : Bool} {newOut : Nat} (hW : InvW s)
@@ -485,7 +486,7 @@ theorem InvM_step {P : Params} {s s' : St} {e : Ev} (h : InvM s) (hB : InvB s) (
   | mExitOne i => exact InvM_wframe h (mExitOne_frame hs) (mExitOne_frame2 hs)
   | mExitIdle => exact InvM_wframe h (mExitIdle_frame hs) (mExitIdle_frame2 hs)
   | mJoin => exact InvM_mJoin hs
-  | wTop i => exact InvM_wframe h (wTop_frame hs) (wTop_frame2 hW hs)
+  | wTop i o0 => exact InvM_wframe h (wTop_frame hs) (wTop_frame2 hW hs)
   | wEnc i full newOut => exact InvM_wframe h (wEnc_frame hs) (wEnc_frame2 hW hs)
   | wEncErr i r => exact InvM_wframe h (wEncErr_frame hs) (wEncErr_frame2 hs)
   | wFb i => exact InvM_wframe h (wFb_frame hs) (wFb_frame2 hW hs)
